@@ -56,7 +56,7 @@ pub fn plant_modes(g: &mut Gen, tree: &mut Vec<Node>, keep_clear: &[String]) -> 
         })
         .flat_map(|(p, t)| std::iter::once(p).chain(t))
         .collect();
-    let dirs: Vec<String> = tree.iter().filter(|n| n.kind == Kind::Dir).map(|n| n.path.clone()).collect();
+    let dirs: Vec<String> = tree.iter().filter(|n| n.kind == Kind::Dir && !is_foreign(&n.path)).map(|n| n.path.clone()).collect();
     if dirs.is_empty() {
         return vec![];
     }
@@ -128,7 +128,7 @@ fn generate_dynamic(g: &mut Gen, stats: &mut GenStats) -> Scenario {
     }
     // targets: anything that is not the working directory, the base, or above them
     let protected = |p: &str| is_under(&cwd, p) || is_under(&base, p);
-    let targets: Vec<&Node> = tree.iter().filter(|n| !protected(&n.path)).collect();
+    let targets: Vec<&Node> = tree.iter().filter(|n| !protected(&n.path) && !is_foreign(&n.path)).collect();
     let mut mutations = Vec::new();
     let mut schedule = Vec::new();
     let mut triggers: Vec<Trigger> = Vec::new();
